@@ -296,6 +296,11 @@ def stmt_of( src, node ):
 
 _PAT_CACHE = {}
 
+class Binds( dict ):
+    """bindings of a successful match: always truthy, even when empty"""
+    def __bool__( self ):
+        return True
+
 def pmatch( node, pattern, binds=None ):
     """Match an expression/statement AST against a pattern written as Python source.  Names starting with
     '_' in the pattern are wildcards binding any sub-expression (same wildcard = structurally equal
@@ -304,7 +309,7 @@ def pmatch( node, pattern, binds=None ):
         mod = ast.parse( pattern )
         body = mod.body[0]
         _PAT_CACHE[pattern] = body.value if isinstance( body, ast.Expr ) else body
-    b = dict( binds or {} )
+    b = Binds( binds or {} )
     return b if _pm( node, _PAT_CACHE[pattern], b ) else None
 
 
